@@ -21,19 +21,23 @@ func VH_C09_formats() {
 	M := vParam("M")
 	N := vParam("N")
 	table := vParam("TABLE") == 1
+	alpha := "ACGTN-acgtnRy"
+	if vParam("SMALL") == 1 {
+		alpha = "ACN"
+	}
 	ref := vSymText("r", 0, W, "ACGT")
 	refFile := vFasta([]string{"ref"}, [][]byte{ref})
 	qids := make([]string, M)
 	qtx := make([][]byte, M)
 	for i := 0; i < M; i++ {
 		qids[i] = "q" + vItoa(i)
-		qtx[i] = vSymText("q", i, W, "ACGTN-acgtnRy")
+		qtx[i] = vSymText("q", i, W, alpha)
 	}
 	tids := make([]string, N)
 	ttx := make([][]byte, N)
 	for i := 0; i < N; i++ {
 		tids[i] = "t" + vItoa(i)
-		ttx[i] = vSymText("t", i, W, "ACGTN-acgtnRy")
+		ttx[i] = vSymText("t", i, W, alpha)
 	}
 	qFasta := vFasta(qids, qtx)
 	tFasta := vFasta(tids, ttx)
